@@ -10,7 +10,9 @@ RULE = ("Hypothesis-generated code lines: token sequences (identifiers, numbers,
         "identifiers, quoted strings with single/multiple embedded blanks standing alone, followed by glued "
         "punctuation or glued to a preceding '(' or '=', tokens longer than the width) joined by 1-3 blanks, x "
         "level 0-6 x width 8-132 x indentation unit x {Python, Fortran} padding; plus syntactically valid Python "
-        "statements from a small grammar for the AST clause. Non-trivial = wrapped into >= 2 lines and the line "
+        "statements from a small grammar for the AST clause; plus the per-line use in emission: whole modules generated for "
+        "Hypothesis-generated programs (Python: parses, multi-token lines within 80 columns; Fortran: every statement of the "
+        "unwrapped emitter buffer has the same tokens after wrapping and re-joining, multi-token lines within 80 columns). Non-trivial = wrapped into >= 2 lines and the line "
         "contains a quoted string or a token longer than a third of the width; distinct by canonical JSON.")
 ASSUMPTIONS = ["input lines have balanced quotes and no escaped quote characters inside string literals",
                "a 'token' for the width clause is a blank-separated chunk, blanks inside quotes not counting",
@@ -143,10 +145,14 @@ def sig_of(msg):
 
 
 def replay(sub, case):
+    if sub == "generated":
+        return check_generated(case)
     return check_case(case)
 
 
 def shrink(sub, case):
+    if sub == "generated":
+        return case
     from vlib.shrink import ddmin_list
     sig = sig_of(check_case(case) or "")
     toks = chunks(case["line"])
@@ -301,8 +307,116 @@ def shard(ctx, n):
     hyp_explore(ctx, st.one_of(line_cases(glued), line_cases(glued), python_stmt_cases(glued)), body, n, "wrap")
 
 
+# ---------------------------------------------------------------- per-line use in emission (end to end)
+
+def logical_lines(text, marker):
+    """Physical lines joined at continuation markers -> list of (joined text, [physical lines])."""
+    out = []
+    cur, phys = "", []
+    for ln in text.split("\n"):
+        phys.append(ln)
+        body = ln.rstrip()
+        if body.endswith(marker) and not body.lstrip().startswith(("!", "#")):
+            cur += body[:-1].rstrip(" ") + " "
+        else:
+            out.append((cur + body.lstrip() if cur else body, phys))
+            cur, phys = "", []
+    if cur or phys:
+        out.append((cur, phys))
+    return out
+
+
+def check_generated(case):
+    """The wrapper as the generators use it: every emitted line of a generated module."""
+    import ast
+    from vlib import backends as B
+    from vlib import fharness as F
+    method = case["method"]
+    try:
+        dag = B.build_dag(method)
+    except Exception as e:
+        return "CodeBuilder raised %s: %s" % (type(e).__name__, e)
+    width = 80
+    if case["target"] == "python":
+        from dagrt.codegen import PythonCodeGenerator
+        try:
+            text = PythonCodeGenerator(class_name="Method")(dag)
+        except Exception:
+            return None         # not this property's business (C01)
+        try:
+            ast.parse(text)
+        except SyntaxError as e:
+            return "generated Python module does not parse: %s" % e
+        inside = False
+        for k, ln in enumerate(text.split("\n")):
+            # only the phase functions go through the wrapper (the rest is copied source text)
+            if ln.startswith("    def "):
+                inside = ln.startswith("    def phase_")
+            if not inside:
+                continue
+            body = ln[:-1] if ln.endswith("\\") else ln
+            try:
+                n = len(chunks(body))
+            except Exception:
+                n = 2
+            if n > 1 and len(ln) > width and "phase_transition_table" not in ln and '"""' not in ln:
+                return "generated Python line %d holds %d tokens and is %d columns wide: %r" % (k + 1, n, len(ln), ln[:120])
+        return None
+    try:
+        cg, text = F.generate(dag, method["ulen"])
+    except Exception:
+        return None             # C03's business
+    raw = [l for l in cg.module_emitter.code]
+    logical = logical_lines(text, "&")
+    # templates may already contain continuation lines: join the unwrapped buffer the same way
+    raw_nonblank = [r[0] for r in logical_lines("\n".join(raw), "&") if r[0].strip()]
+    log_nonblank = [l for l in logical if l[0].strip()]
+    for k, (joined, phys) in enumerate(log_nonblank):
+        for ln in phys:
+            body = ln.rstrip()
+            if body.lstrip().startswith("!"):
+                continue
+            core = body[:-1] if body.endswith("&") else body
+            try:
+                n = len(chunks(core))
+            except Exception:
+                n = 2
+            if n > 1 and len(body) > width:
+                return "generated Fortran line holds %d tokens and is %d columns wide: %r" % (n, len(body), body[:120])
+    if len(raw_nonblank) == len(log_nonblank):
+        for r, (joined, phys) in zip(raw_nonblank, log_nonblank):
+            if r.lstrip().startswith("!") or r.lstrip().startswith("#"):
+                continue
+            try:
+                if lang_tokens(r) != lang_tokens(joined):
+                    return "emitted Fortran statement changed by wrapping: %r -> %r" % (r.strip()[:100], joined.strip()[:100])
+            except Unterminated:
+                continue
+    else:
+        return "wrapping changed the number of Fortran statements: %d unwrapped lines, %d after re-joining" % (
+            len(raw_nonblank), len(log_nonblank))
+    return None
+
+
+def generated_shard(ctx, n):
+    from checks import c03
+    from vlib.progen import methods
+    prof = dict(c03.PROFILE, subscript_whole_array_results=False, minmax_loop_counter=False, max_ops=10)
+    strat = st.fixed_dictionaries({"method": methods(prof), "target": st.sampled_from(["python", "fortran"])})
+
+    def body(case):
+        ctx.note(case, True, ["generated_" + case["target"]])
+        msg = check_generated(case)
+        if msg is not None:
+            ctx.fail("generated", case, msg, sig=" ".join(msg.split(" ")[:4]))
+
+    hyp_explore(ctx, strat, body, n, "generated")
+
+
 def run(ctx):
     if ctx.quick:
         ctx.parallel(shard, 8, 1500)
+        ctx.parallel(generated_shard, 16, 12)
     else:
         ctx.parallel(shard, 16, 100000)
+        ctx.parallel(generated_shard, 16, 1500)
